@@ -27,6 +27,9 @@ type unit struct {
 	Fam  string `json:"fam"` // "tree" | "chain"
 	Tree string `json:"tree"`
 	Rot  int    `json:"rot"`
+	// Shape > 0: body-shape family (exit form x surplus operands x result arity, see tree.go);
+	// such units run the history "once" only.
+	Shape int `json:"shape,omitempty"`
 }
 
 type bounds struct {
@@ -39,16 +42,17 @@ type bounds struct {
 	// factory, the full set and the singleton sets
 	fullHistoryUpTo int
 	tailFormNodes   int // bound of the family over the extended tail-call forms
+	shapeAllUpTo    int // trees up to this size run every body shape; the next size one shape per tree
 }
 
 func tierBounds(thorough bool) bounds {
-	b := bounds{maxNodes: 4, rotUpTo: 3, histories: []string{"once", "twice", "cache", "reopen", "other", "closedcm", "hostclose", "rtinst"}, fullHistoryUpTo: 3, tailFormNodes: 3,
+	b := bounds{maxNodes: 4, rotUpTo: 3, histories: []string{"once", "twice", "cache", "reopen", "other", "closedcm", "hostclose", "rtinst"}, fullHistoryUpTo: 3, tailFormNodes: 3, shapeAllUpTo: 2,
 		chainPattern: []string{"d", "i", "dim", "dhr"}}
 	for d := 1; d <= 40; d++ {
 		b.chainDepths = append(b.chainDepths, d)
 	}
 	if thorough {
-		b.maxNodes, b.rotUpTo, b.fullHistoryUpTo, b.tailFormNodes = 5, 4, 4, 4
+		b.maxNodes, b.rotUpTo, b.fullHistoryUpTo, b.tailFormNodes, b.shapeAllUpTo = 5, 4, 4, 4, 3
 	}
 	return b
 }
@@ -59,7 +63,7 @@ func buildUnits(b bounds) []unit {
 	for _, pat := range b.chainPattern {
 		for _, d := range b.chainDepths {
 			for _, leaf := range []byte("RTPE") {
-				us = append(us, unit{"chain", chainTree(d, pat, leaf).String(), 0})
+				us = append(us, unit{Fam: "chain", Tree: chainTree(d, pat, leaf).String()})
 			}
 		}
 	}
@@ -70,7 +74,7 @@ func buildUnits(b bounds) []unit {
 				rots = 3
 			}
 			for r := 0; r < rots; r++ {
-				us = append(us, unit{"tree", t.String(), r})
+				us = append(us, unit{Fam: "tree", Tree: t.String(), Rot: r})
 			}
 		}
 	}
@@ -79,9 +83,23 @@ func buildUnits(b bounds) []unit {
 	for n := 2; n <= b.tailFormNodes; n++ {
 		for _, t := range enumTreesKinds(n, "dimhtuvw") {
 			if strings.ContainsAny(t.String(), "uvw") {
-				us = append(us, unit{"tree", t.String(), n % 3})
+				us = append(us, unit{Fam: "tree", Tree: t.String(), Rot: n % 3})
 			}
 		}
+	}
+	// body shapes: every (exit form, surplus operands) combination x 4 signature rotations (result
+	// arity 0..3 at every node) on all small trees; one rotating combination per tree on the next size
+	for n := 1; n <= b.shapeAllUpTo; n++ {
+		for _, t := range enumTrees(n) {
+			for r := 0; r < len(shapeSigTable); r++ {
+				for sh := 1; sh <= numShapeCombos; sh++ {
+					us = append(us, unit{Fam: "tree", Tree: t.String(), Rot: r, Shape: sh})
+				}
+			}
+		}
+	}
+	for k, t := range enumTrees(b.shapeAllUpTo + 1) {
+		us = append(us, unit{Fam: "tree", Tree: t.String(), Rot: k % len(shapeSigTable), Shape: 1 + (k*11)%numShapeCombos})
 	}
 	return us
 }
@@ -91,6 +109,7 @@ func buildUnits(b bounds) []unit {
 type caseID struct {
 	Tree    string `json:"tree"`
 	Rot     int    `json:"rot"`
+	Shape   int    `json:"shape,omitempty"`
 	Start   bool   `json:"start"`
 	Engine  string `json:"engine"`
 	History string `json:"history"`
@@ -255,7 +274,7 @@ func runUnit(u unit, b bounds) (res unitResult) {
 		hasExit = hasExit || t[i].Out == 'E'
 	}
 	for _, start := range starts {
-		p := buildProgram(t, start, u.Rot)
+		p := buildProgram(t, start, u.Rot, u.Shape)
 		sets := setsFor(u, len(t))
 		type key struct {
 			mask uint64
@@ -264,7 +283,7 @@ func runUnit(u unit, b bounds) (res unitResult) {
 		streams := map[string]map[key]caseVerdict{}
 		for _, eng := range []string{"interpreter", "compiler"} {
 			streams[eng] = map[key]caseVerdict{}
-			bid := caseID{Tree: u.Tree, Rot: u.Rot, Start: start, Engine: eng, History: "once"}
+			bid := caseID{Tree: u.Tree, Rot: u.Rot, Shape: u.Shape, Start: start, Engine: eng, History: "once"}
 			bv := evalCase(p, bid, nil)
 			res.Evals++
 			res.Outcomes["result:"+errClass(bv.res.Out)]++
@@ -285,11 +304,19 @@ func runUnit(u unit, b bounds) (res unitResult) {
 					if u.Fam == "tree" && (h == "cache" || h == "reopen") && len(t) > b.fullHistoryUpTo && !s.All {
 						continue
 					}
+					// "other" and "reopen" are positive controls (expected to work): on the larger trees
+					// "other" runs with the all-functions factory and the full set, "reopen" not at all
+					if u.Fam == "tree" && len(t) > b.fullHistoryUpTo && (h == "reopen" || (h == "other" && !s.All && s.Mask != 1<<uint(len(t))-1)) {
+						continue
+					}
+					if u.Shape > 0 && h != "once" {
+						continue
+					}
 					// lifecycle histories only where they can differ from "once"
 					if (h == "hostclose" && !hasHost) || (h == "rtinst" && !hasExit) || (h == "closedcm" && start) {
 						continue
 					}
-					id := caseID{Tree: u.Tree, Rot: u.Rot, Start: start, Engine: eng, History: h, Listen: true, Mask: s.Mask, All: s.All}
+					id := caseID{Tree: u.Tree, Rot: u.Rot, Shape: u.Shape, Start: start, Engine: eng, History: h, Listen: true, Mask: s.Mask, All: s.All}
 					v := evalCase(p, id, &base)
 					res.Evals++
 					for _, w := range v.viols {
@@ -325,19 +352,19 @@ func runUnit(u unit, b bounds) (res unitResult) {
 			}
 			sa, sc := normalizeForEngines(t, a.res.Ev), normalizeForEngines(t, c.res.Ev)
 			if sa != sc {
-				id := caseID{Tree: u.Tree, Rot: u.Rot, Start: start, Engine: "both", History: "once", Listen: true, Mask: s.Mask, All: s.All}
+				id := caseID{Tree: u.Tree, Rot: u.Rot, Shape: u.Shape, Start: start, Engine: "both", History: "once", Listen: true, Mask: s.Mask, All: s.All}
 				addViol(id, p, viol{"engines-differ:event-stream", fmt.Sprintf("interpreter %s | compiler %s", clip(sa), clip(sc))})
 			}
 			if a.res.Out.String() != c.res.Out.String() {
-				id := caseID{Tree: u.Tree, Rot: u.Rot, Start: start, Engine: "both", History: "once", Listen: true, Mask: s.Mask, All: s.All}
+				id := caseID{Tree: u.Tree, Rot: u.Rot, Shape: u.Shape, Start: start, Engine: "both", History: "once", Listen: true, Mask: s.Mask, All: s.All}
 				addViol(id, p, viol{"engines-differ:result", fmt.Sprintf("interpreter %v | compiler %v", a.res.Out, c.res.Out)})
 			}
 		}
 	}
 	{
-		p := buildProgram(t, false, u.Rot)
+		p := buildProgram(t, false, u.Rot, u.Shape)
 		ev, out := runModel(t, p.sigs, func(int) bool { return true }, modelOpts{})
-		res.Sample = map[string]any{"tree": u.Tree, "rot": u.Rot, "family": u.Fam, "reference_result": out.String(), "reference_stream_all_listened": clip(streamString(ev))}
+		res.Sample = map[string]any{"tree": u.Tree, "rot": u.Rot, "shape": u.Shape, "family": u.Fam, "reference_result": out.String(), "reference_stream_all_listened": clip(streamString(ev))}
 	}
 	return
 }
@@ -420,7 +447,7 @@ func main() {
 			if crash != nil {
 				outcomes.Inc("unit-" + crash.Kind)
 				run.Violation("process-"+crash.Kind+":"+u.Fam, "the process running all cases of this tree died: "+fw.FirstLines(crash.Stderr, 6),
-					caseID{Tree: u.Tree, Rot: u.Rot, Engine: "both", History: "all"})
+					caseID{Tree: u.Tree, Rot: u.Rot, Shape: u.Shape, Engine: "both", History: "all"})
 				return
 			}
 			if res == "SKIPPED" {
@@ -471,7 +498,7 @@ func main() {
 		Evaluations: evals, DistinctNontriv: distinct,
 		Rule:    "evaluation = one execution of a generated program on one engine under one compilation history with one listener set (or none); distinct non-trivial = distinct (tree, signature rotation, start-variant, listener set) whose reference event stream is non-empty, counted once across engines and histories",
 		Samples: samples.List(), Exhaustive: true, Outcomes: outcomes.Map(),
-		Bounds: map[string]any{"max_nodes": b.maxNodes, "edge_kinds": "d,i,m,h,t,r", "tail_form_family": fmt.Sprintf("edge kinds d,i,m,h,t,u,v,w,r; trees with <= %d nodes using u, v or w", b.tailFormNodes), "outcomes": "R,T,P,E,S", "signature_rotations_up_to_nodes": b.rotUpTo,
+		Bounds: map[string]any{"max_nodes": b.maxNodes, "edge_kinds": "d,i,m,h,t,r", "body_shapes": fmt.Sprintf("%d (exit form x surplus operands) combinations x 4 signature rotations on every tree with <= %d nodes, one combination per tree with %d nodes; history once", numShapeCombos, b.shapeAllUpTo, b.shapeAllUpTo+1), "tail_form_family": fmt.Sprintf("edge kinds d,i,m,h,t,u,v,w,r; trees with <= %d nodes using u, v or w", b.tailFormNodes), "outcomes": "R,T,P,E,S", "signature_rotations_up_to_nodes": b.rotUpTo,
 			"chain_depths": "1..40", "chain_patterns": b.chainPattern, "chain_leaves": "R,T,P,E", "histories": b.histories, "all_listener_sets_under_every_history_up_to_nodes": b.fullHistoryUpTo, "engines": []string{"interpreter", "compiler"},
 			"listener_sets": "every subset of the nodes + all-functions factory (trees); full/even/odd/root/leaf/all-functions (chains)"},
 		Extra: map[string]any{"units": len(units), "units_done": int64(done) - skipped, "tree_units": nTree, "chain_units": nChain, "units_by_size": byN, "explore_wall_s": time.Since(t0).Seconds()},
@@ -491,7 +518,7 @@ func runOne(id caseID, verbose bool) []viol {
 	if err != nil {
 		fw.Fatalf("replay: %v", err)
 	}
-	p := buildProgram(t, id.Start, id.Rot)
+	p := buildProgram(t, id.Start, id.Rot, id.Shape)
 	engines := []string{id.Engine}
 	if id.Engine == "both" || id.Engine == "" {
 		engines = []string{"interpreter", "compiler"}
@@ -557,6 +584,8 @@ func show(args []string) {
 		switch {
 		case a == "start":
 			id.Start = true
+		case strings.HasPrefix(a, "shape="):
+			fmt.Sscan(a[6:], &id.Shape)
 		case strings.HasPrefix(a, "rot="):
 			fmt.Sscan(a[4:], &id.Rot)
 		case strings.HasPrefix(a, "mask="):
